@@ -133,6 +133,14 @@ THEOREMS.update({
 })
 EXPLANATION += ("  (3) The CLI wrappers select_next_plate.main and calculate_scores.main are re-translated as WHOLE functions on every run (Generated/SrcCli.v) and proved equal to Model/Cli.v; two instances compose them with the translated library functions over Model/Scores.v.  These links trust the translator harness/py2gal.py (for these links extended by cfg typed_effects, kwcalls keys `module.function`, state_calls assigned to a tuple), the representation of Model/Cli.v (parsed arguments = a record of the plain argparse results, get_args() not translated = the primitive `get_args()` yielding that record; a main() denotes the list of (path, content) files it writes; `L` = ANY record of library functions over abstract types) and EXACTLY these primitives of harness/src_functions.py, each one field read / one library or constructor call standing for the function of that name (whose own link, where it exists, is the one of its property): CLI_PRNG (get_prng_from_seed_argument, reads args.seed only): numpy.random.SeedSequence(s).generate_state(1)[0] = seedseq_word mix s (ValueError for s < 0, `mix` an arbitrary function of the seed), numpy.random.default_rng(w) = Gen w. CLI_SELECT_NEXT_PLATE: the fields of `args` read as the record's projections (a store to one is refused); ignored: log_config.configure_logging(args), logger.info/warning; Screen.load_h5(p), args.policy_cls(**args.policy_params), get_prng_from_seed_argument(args) (translated), ChunkedScoresHolder.load_h5(p) / .concat(l), p.plate_id, the keyword call select_next_plate(...) with its defaults (batch_plate_ids=None, rng=None), the context open(p, 'w') = the path, typed effect f.write(str(n)) with n an int = append (f, n) (the file holds the decimal text of n). CLI_CALCULATE_SCORES: the fields of `args` read as the record's projections (a store to one is refused); ignored: log_config.configure_logging(args), logger.info/warning; Screen.load_h5(p), args.scorer_cls(**args.scorer_params), ThetaHolder(n_thetas=1) (a handle), h.load_h5(p), h.concat(l), ChunkedDistanceMatrix.load(p) / .concat(l), sum(l), s.plates, p.is_observed, p.plate_id (the three only feed a log line), get_prng_from_seed_argument(args) = the TRANSLATED function on the record's seed, the keyword call score_chunk(...) with the defaults of its signature (rng=None, progress_bar=False, n_chunks=1, chunk_index=0, batch_plate_ids=None; WHICH keywords are passed is read from the source), typed effect r.save_h5(p) = append (p, r) to the written files. ")
 
+THEOREMS.update({
+    "C06_model_is_source_size_scorer_score": "the translation of the whole method SizeScorer.score ({k: plate.size for k, plate in plates.items()}; distance_matrix, samples, rng, progress_bar are not read) equals the model's size_scorer on every plates dict (distinct keys, as in any Python dict): the same plate ids in the same order, each with the number of rows of its plate",
+    "C06_model_is_source_size_scorer_score_general": "without the distinct-keys side condition: the comprehension is the left fold of dict_set over the entries",
+})
+EXPLANATION += ("  (4) SizeScorer.score is re-translated as a whole method (configuration L10B_SIZE_SCORER -> Generated/SrcScoring.v) and linked to "
+                "Scores.size_scorer; trusted: the translator (extended by dict comprehensions over d.items()) and the one primitive p.size = the number of rows of the "
+                "plate (a Plate where a ScreenSubset is expected is its rows in this vocabulary). ")
+
 logging.getLogger("batchie").setLevel(logging.ERROR)  # "No eligible plates remaining" warnings are not part of the check
 
 TNAMES = ["", "a", "b", "c"]
